@@ -29,6 +29,26 @@ CLAIMED = {
          "Theorems in coq/Props/C18.v (generic in the float arithmetic, with the numeric facts they need stated as hypotheses): equality reflexive and symmetric, strconv.Quote injective, == <=> same map key for primitives, equal values render alike, rendering canonical under permutation of fields and entries, distinct numbers never collide. Tied to the code by comparing String(), Key(), Equals and the string() conversion on thousands of generated pairs (numbers across 2^53 and 2^63, every escape class, nested containers with permuted field and insertion order); the property's own predicate (== vs rendering vs key vs union/intersect/diff membership) is evaluated on the implementation.",
          "Trusted: Coq kernel, extraction, driver (hardware doubles, shortest float printing by round-trip search), harness. Function values (compared and rendered by address) and times with a monotonic reading or a non-UTC location are outside the model; NaN is outside the property's premise (not self-equal by IEEE).",
          "DESIGN.md §5 C18"),
+ "C03": ("Coq proof relating the bytecode compiler + VM model to the reference evaluator; differential correspondence of all four back ends (values, failure classes, host-call traces) and of the emitted bytes",
+         "coq/Model/Eval.v is the reference semantics and the model of the closure compiler and the AST interpreter; coq/Model/VM.v transcribes vm/compiler.go and both dispatch loops at byte level. Theorems in coq/Props/C03.v relate them. Every run compares, per generated program and back end, the outcome class, the canonical value and the ordered host-call trace of the implementation with the model, and applies the property's predicate (all back ends agree or the VM refused for capacity) directly.",
+         "Trusted: Coq kernel, extraction, driver (numeric instance), harness. Oracles: timelib, regexp (tables shipped per case), math.Pow (ported), hardware doubles. The call-threaded loop's instruction limit and the dynamic call of a lazy function value are known findings.",
+         "DESIGN.md §5 C03"),
+ "C11": ("Coq proof about the bytecode compiler model and a verified bytecode verifier; byte-for-byte correspondence of emitted code and constant pool",
+         "coq/Model/VM.v:compile transcribes vm/compiler.go + intrinsic.go at byte level (opcode numbering and intrinsic tables regenerated from the source on every run); theorems in coq/Props/C11.v. Every run compares the implementation's emitted bytes and constant pool (main code and every thunk body) with the model's, and runs an independent structural verifier on the implementation's bytes (decoding, operand kinds and ranges, forward jumps on instruction boundaries, single stack depth per pc, depth one at RETURN).",
+         "Trusted: Coq kernel, extraction, driver, harness, the -tags verif hook that exposes code and pool.",
+         "DESIGN.md §5 C11"),
+ "C01": ("Coq proof of type preservation over the checker + evaluator models; direct deep dynamic-type check of every result on all back ends",
+         "Theorems in coq/Props/C01.v. Every run evaluates generated well-typed programs (objects with permuted field order in literals and in host data) on the four back ends, walks each result through its exported fields and compares its deep dynamic type with the type the checker inferred; the evaluator and VM models are tied to the code by the C03 correspondence cases emitted in the same run.",
+         "Trusted: as C03. Memory safety after a wrong static type is represented by the model's Fault outcomes, not by modelling Go's memory.",
+         "DESIGN.md §5 C01"),
+ "C02": ("Coq proof of progress over the evaluator / VM models; boundary sweeps of indices, moduli, patterns, wide and deep literals on all back ends",
+         "Theorems in coq/Props/C02.v. Every run checks on the implementation that accepted programs end in a value or a documented failure class (index, key, modulo by zero, regexp, host failure), that programs built from total operations never fail, and emits correspondence cases (failure class compared with the model's).",
+         "Trusted: as C03. Known finding: the call-threaded loop's 1024-instruction limit.",
+         "DESIGN.md §5 C02"),
+ "C06": ("Coq proof about the trace semantics of lazy and strict operands; poisoned-branch and tracing-call programs on all back ends",
+         "Theorems in coq/Props/C06.v over the event-trace semantics. Every run places failing sub-expressions in unselected operand positions of if / ?: / && / || / user lazy functions (they must not run) and tracing calls in strict positions (once each, source order), on four back ends, and emits correspondence cases whose observable includes the ordered host-call trace.",
+         "Trusted: as C03.",
+         "DESIGN.md §5 C06"),
 }
 NOT_YET = "machinery for this property is not built yet (work in progress in this repository; see DESIGN.md §5)"
 
